@@ -2,6 +2,7 @@ package main
 
 import (
 	"go/ast"
+	"go/printer"
 	"go/token"
 	"go/types"
 	"strconv"
@@ -15,7 +16,10 @@ import (
 //   - the case labels of the `switch next` of lex.nextToken, clause by clause, in order (byte values;
 //     the default clause is the empty list), and of the `switch c` of lex.consumeIdent;
 //   - ident_chars: the labels of the clause of consumeIdent's switch that appends to the identifier;
-//   - the keys of the `keywords` map (grammar_parse.go) and of the `operators` map (grammar.go).
+//   - the keys of the `keywords` map (grammar_parse.go) and of the `operators` map (grammar.go);
+//   - the statement skeleton of parseFileInput (grammar_parse.go) in source order and the way its caller
+//     Parser.parseAndHandleErrors (parser.go) uses the returned *FileInput on both return paths, plus the
+//     list of Parser methods that reach the parser through parseAndHandleErrors (see c19Entry).
 //
 // Anything that is not a character literal / string literal where one is expected fails closed.
 func init() {
@@ -167,6 +171,229 @@ func init() {
 		}
 		b.WriteString("Definition keywords : list string := " + coqStringList(mapKeys(fp, "keywords")) + ".\n")
 		b.WriteString("Definition operators : list string := " + coqStringList(mapKeys(fg, "operators")) + ".\n")
+		c19Entry(&b, fp)
 		return b.String()
 	}
+}
+
+// c19Entry translates the wrapper around the recursive-descent parser:
+//
+//	parse_file_input_steps : the top-level statements of parseFileInput, in source order, each one of
+//	    "alloc_input"   input = &FileInput{}
+//	    "defer_recover" defer func() { if r := recover(); r != nil { ...; err = r.(error) } }()
+//	    "new_lexer"     p := &parser{l: newLexer(r)}          (newLexer lexes the first token: it can panic)
+//	    "loop"          for tok := p.l.Peek(); tok.Type != EOF; tok = p.l.Peek() { input.Statements = append(input.Statements, p.parseStatement()) }
+//	    "return_input"  return input, nil
+//	handle_ok_derefs_input / handle_err_derefs_input : whether parseAndHandleErrors returns input.Statements
+//	    (a dereference of the *FileInput) or nil on its `err == nil` / error path;
+//	entry_points : the methods of Parser (other than parseAndHandleErrors) whose body calls p.parseAndHandleErrors;
+//	parse_file_input_callers : every function of the package (non-test, non-verif files of parser.go and
+//	    grammar_parse.go) that calls parseFileInput.
+//
+// Every statement that is not exactly one of these shapes fails closed.
+func c19Entry(b *strings.Builder, fp *ast.File) {
+	_, fparser := parseFile("src/parse/asp/parser.go")
+	// the exact source text of an expression (types.ExprString abbreviates composite literals and function bodies)
+	str := func(n ast.Expr) string {
+		if n == nil {
+			return ""
+		}
+		var sb strings.Builder
+		if err := printer.Fprint(&sb, token.NewFileSet(), n); err != nil {
+			failShape("cannot print an expression: %v", err)
+		}
+		return sb.String()
+	}
+	// --- parseFileInput -------------------------------------------------------------------------
+	fd := findFunc(fp, "", "parseFileInput")
+	res := fd.Type.Results
+	if res == nil || len(res.List) != 2 || len(res.List[0].Names) != 1 || res.List[0].Names[0].Name != "input" ||
+		str(res.List[0].Type) != "*FileInput" || len(res.List[1].Names) != 1 || res.List[1].Names[0].Name != "err" || str(res.List[1].Type) != "error" {
+		failShape("parseFileInput: results are not (input *FileInput, err error)")
+	}
+	isRecoverDefer := func(d *ast.DeferStmt) bool {
+		fl, ok := d.Call.Fun.(*ast.FuncLit)
+		if !ok || len(d.Call.Args) != 0 || len(fl.Body.List) != 1 {
+			return false
+		}
+		ifs, ok := fl.Body.List[0].(*ast.IfStmt)
+		if !ok || ifs.Else != nil || ifs.Init == nil || str(ifs.Cond) != "r != nil" {
+			return false
+		}
+		as, ok := ifs.Init.(*ast.AssignStmt)
+		if !ok || as.Tok != token.DEFINE || len(as.Lhs) != 1 || str(as.Lhs[0]) != "r" || len(as.Rhs) != 1 || str(as.Rhs[0]) != "recover()" {
+			return false
+		}
+		// the body may log, and must end with err = r.(error); nothing else may be assigned
+		n := len(ifs.Body.List)
+		if n == 0 {
+			return false
+		}
+		for i, s := range ifs.Body.List {
+			if i == n-1 {
+				a, ok := s.(*ast.AssignStmt)
+				if !ok || a.Tok != token.ASSIGN || len(a.Lhs) != 1 || str(a.Lhs[0]) != "err" || len(a.Rhs) != 1 || str(a.Rhs[0]) != "r.(error)" {
+					return false
+				}
+				continue
+			}
+			es, ok := s.(*ast.ExprStmt)
+			if !ok || !strings.HasPrefix(str(es.X), "log.") {
+				return false
+			}
+		}
+		return true
+	}
+	isLoop := func(f *ast.ForStmt) bool {
+		init, ok := f.Init.(*ast.AssignStmt)
+		if !ok || init.Tok != token.DEFINE || len(init.Lhs) != 1 || str(init.Lhs[0]) != "tok" || len(init.Rhs) != 1 || str(init.Rhs[0]) != "p.l.Peek()" {
+			return false
+		}
+		post, ok := f.Post.(*ast.AssignStmt)
+		if !ok || post.Tok != token.ASSIGN || len(post.Lhs) != 1 || str(post.Lhs[0]) != "tok" || len(post.Rhs) != 1 || str(post.Rhs[0]) != "p.l.Peek()" {
+			return false
+		}
+		if str(f.Cond) != "tok.Type != EOF" || len(f.Body.List) != 1 {
+			return false
+		}
+		a, ok := f.Body.List[0].(*ast.AssignStmt)
+		return ok && a.Tok == token.ASSIGN && len(a.Lhs) == 1 && str(a.Lhs[0]) == "input.Statements" && len(a.Rhs) == 1 &&
+			str(a.Rhs[0]) == "append(input.Statements, p.parseStatement())"
+	}
+	var steps []string
+	for i, st := range fd.Body.List {
+		switch x := st.(type) {
+		case *ast.AssignStmt:
+			switch {
+			case x.Tok == token.ASSIGN && len(x.Lhs) == 1 && str(x.Lhs[0]) == "input" && len(x.Rhs) == 1 && str(x.Rhs[0]) == "&FileInput{}":
+				steps = append(steps, "alloc_input")
+			case x.Tok == token.DEFINE && len(x.Lhs) == 1 && str(x.Lhs[0]) == "p" && len(x.Rhs) == 1 && str(x.Rhs[0]) == "&parser{l: newLexer(r)}":
+				steps = append(steps, "new_lexer")
+			default:
+				failShape("parseFileInput: statement %d is an assignment of an unknown shape", i)
+			}
+		case *ast.DeferStmt:
+			if !isRecoverDefer(x) {
+				failShape("parseFileInput: statement %d is a defer of an unknown shape", i)
+			}
+			steps = append(steps, "defer_recover")
+		case *ast.ForStmt:
+			if !isLoop(x) {
+				failShape("parseFileInput: statement %d is a loop of an unknown shape", i)
+			}
+			steps = append(steps, "loop")
+		case *ast.ReturnStmt:
+			if len(x.Results) != 2 || str(x.Results[0]) != "input" || str(x.Results[1]) != "nil" {
+				failShape("parseFileInput: statement %d is not `return input, nil`", i)
+			}
+			steps = append(steps, "return_input")
+		default:
+			failShape("parseFileInput: statement %d has an unknown shape", i)
+		}
+	}
+	count := map[string]int{}
+	for _, s := range steps {
+		count[s]++
+	}
+	for _, s := range []string{"defer_recover", "new_lexer", "loop", "return_input"} {
+		if count[s] != 1 {
+			failShape("parseFileInput: %d statements of kind %s (expected exactly one)", count[s], s)
+		}
+	}
+	if steps[len(steps)-1] != "return_input" {
+		failShape("parseFileInput does not end with `return input, nil`")
+	}
+	idx := func(name string) int {
+		for i, s := range steps {
+			if s == name {
+				return i
+			}
+		}
+		return -1
+	}
+	// Go would not compile `p` used before its definition; and the model does not resolve the evaluation order of
+	// `input.Statements = append(input.Statements, p.parseStatement())` on a nil input
+	if idx("new_lexer") > idx("loop") {
+		failShape("parseFileInput: the loop precedes the construction of the parser")
+	}
+	if a := idx("alloc_input"); a >= 0 && a > idx("loop") {
+		failShape("parseFileInput: the FileInput is allocated after the statement loop")
+	}
+	b.WriteString("Definition parse_file_input_steps : list string := " + coqStringList(steps) + ".\n")
+
+	// --- Parser.parseAndHandleErrors --------------------------------------------------------------
+	hd := findFunc(fparser, "Parser", "parseAndHandleErrors")
+	if len(hd.Body.List) != 3 {
+		failShape("parseAndHandleErrors: %d statements (expected 3)", len(hd.Body.List))
+	}
+	as, ok := hd.Body.List[0].(*ast.AssignStmt)
+	if !ok || as.Tok != token.DEFINE || len(as.Lhs) != 2 || str(as.Lhs[0]) != "input" || str(as.Lhs[1]) != "err" || len(as.Rhs) != 1 || str(as.Rhs[0]) != "parseFileInput(r)" {
+		failShape("parseAndHandleErrors: first statement is not `input, err := parseFileInput(r)`")
+	}
+	deref := func(e ast.Expr, where string) string {
+		switch str(e) {
+		case "input.Statements":
+			return "true"
+		case "nil":
+			return "false"
+		}
+		failShape("parseAndHandleErrors: the %s path returns %s (expected input.Statements or nil)", where, str(e))
+		return ""
+	}
+	ifs, ok := hd.Body.List[1].(*ast.IfStmt)
+	if !ok || ifs.Init != nil || ifs.Else != nil || str(ifs.Cond) != "err == nil" || len(ifs.Body.List) != 1 {
+		failShape("parseAndHandleErrors: second statement is not `if err == nil { return ... }`")
+	}
+	r1, ok := ifs.Body.List[0].(*ast.ReturnStmt)
+	if !ok || len(r1.Results) != 2 || str(r1.Results[1]) != "nil" {
+		failShape("parseAndHandleErrors: the err == nil path is not `return <statements>, nil`")
+	}
+	r2, ok := hd.Body.List[2].(*ast.ReturnStmt)
+	if !ok || len(r2.Results) != 2 || str(r2.Results[1]) != "p.annotate(err, r)" {
+		failShape("parseAndHandleErrors: the error path is not `return <statements>, p.annotate(err, r)`")
+	}
+	b.WriteString("Definition handle_ok_derefs_input : bool := " + deref(r1.Results[0], "err == nil") + ".\n")
+	b.WriteString("Definition handle_err_derefs_input : bool := " + deref(r2.Results[0], "error") + ".\n")
+
+	// --- who reaches the parser how -------------------------------------------------------------
+	calls := func(fd *ast.FuncDecl, callee string) bool {
+		found := false
+		if fd.Body == nil {
+			return false
+		}
+		ast.Inspect(fd.Body, func(n ast.Node) bool {
+			if c, ok := n.(*ast.CallExpr); ok && str(c.Fun) == callee {
+				found = true
+			}
+			return true
+		})
+		return found
+	}
+	name := func(fd *ast.FuncDecl) string {
+		if fd.Recv != nil && len(fd.Recv.List) == 1 {
+			t := fd.Recv.List[0].Type
+			if s, ok := t.(*ast.StarExpr); ok {
+				t = s.X
+			}
+			return str(t) + "." + fd.Name.Name
+		}
+		return fd.Name.Name
+	}
+	var entries, direct []string
+	for _, f := range []*ast.File{fparser, fp} {
+		for _, d := range f.Decls {
+			fd, ok := d.(*ast.FuncDecl)
+			if !ok {
+				continue
+			}
+			if calls(fd, "p.parseAndHandleErrors") {
+				entries = append(entries, name(fd))
+			}
+			if calls(fd, "parseFileInput") {
+				direct = append(direct, name(fd))
+			}
+		}
+	}
+	b.WriteString("Definition entry_points : list string := " + coqStringList(entries) + ".\n")
+	b.WriteString("Definition parse_file_input_callers : list string := " + coqStringList(direct) + ".\n")
 }
